@@ -277,6 +277,66 @@ static void check_fpenv(ChildCtx& c, const std::string& fn, const std::string& w
                "rounding mode, flush-to-zero and denormals-are-zero flags are left as the caller set them", P().kv("aspect", "fpenv"));
 }
 
+// ------------------------------------------------------------------ homogeneity under power-of-two scaling
+// f(2^k * x) must equal 2^(k*degree) * f(x) BIT FOR BIT (multiplication by a power of two is exact as long as nothing
+// under- or overflows): linear transforms and filters (degree 1), power spectra (degree 2), scale-free statistics and
+// estimators (degree 0).  An absolute threshold, floor, flush or tolerance inside such a computation breaks this for
+// small or large units while every unit-scale test still passes.
+struct Hom {
+    std::string prop, name;
+    int degree;
+    std::function<Out(double)> f;   // argument: the scale applied to the (first) input
+    int kmax = 300;                  // largest |k| used (scale-free estimators square their inputs twice: 100)
+};
+#define HV(...) [](double s) -> Out { (void)s; __VA_ARGS__ }
+static arr_real rs(int n, uint64_t tag, double s) {
+    arr_real a(n);
+    for (int i = 0; i < n; ++i) a[i] = s * lcg_val(tag, (uint64_t)i);
+    return a;
+}
+static arr_cmplx cs(int n, uint64_t tag, double s) {
+    arr_cmplx a(n);
+    for (int i = 0; i < n; ++i) a[i] = cmplx_t(s * lcg_val(tag, (uint64_t)i), s * lcg_val(tag + 50, (uint64_t)i));
+    return a;
+}
+static arr_real ps(int n, uint64_t tag, double s) {   // tie-free permutation letter, scaled
+    arr_real a;
+    perm(a, n, tag);
+    for (int i = 0; i < n; ++i) a[i] *= s;
+    return a;
+}
+static Out app(Out a, const Out& b) {   // plain concatenation (no length marker: every value must scale)
+    a.insert(a.end(), b.begin(), b.end());
+    return a;
+}
+static std::vector<Hom> hom_catalogue() {
+    std::vector<Hom> H;
+    auto add = [&](const char* prop, const char* name, int deg, std::function<Out(double)> f, int kmax = 300) { H.push_back(Hom{prop, name, deg, std::move(f), kmax}); };
+    add("C01,C10", "fft(cmplx 12/16/53)", 1, HV(return app(app(flat(fft(cs(12, 1, s))), flat(fft(cs(16, 2, s)))), flat(fft(cs(53, 3, s))));));
+    add("C01,C10", "rfft / fft(real) / fft(x,n)", 1, HV(return app(app(flat(rfft(rs(30, 1, s))), flat(fft(rs(15, 2, s)))), flat(fft(cs(5, 3, s), 16)));));
+    add("C01", "czt", 1, HV(return flat(czt(cs(9, 1, s), 11, expj(-2 * pi / 13), cmplx_t(0.9, 0.2)));));
+    add("C02", "ifft / irfft", 1, HV(return app(app(flat(ifft(cs(12, 1, s))), flat(irfft(cs(7, 2, s), 12))), flat(ifft(cs(53, 3, s))));));
+    add("C02", "istft(stft)", 1, HV(return flat(istft(stft(rs(40, 1, s), 8), 8));));
+    add("C07,C06", "FirFilter / FftFilter (scaled input)", 1, HV(FirFilterR f(rs(9, 1, 1.0)); FftFilter g(rs(9, 1, 1.0)); FirFilterC h(cs(6, 2, 1.0)); return app(app(flat(f.process(rs(40, 5, s))), flat(g.process(rs(64, 5, s)))), flat(h.process(cs(30, 6, s))));));
+    add("C07,C06", "FirFilter / FftFilter (scaled taps)", 1, HV(FirFilterR f(rs(9, 1, s)); FftFilter g(rs(9, 1, s)); FirFilterC h(cs(6, 2, s)); return app(app(flat(f.process(rs(40, 5, 1.0))), flat(g.process(rs(64, 5, 1.0)))), flat(h.process(cs(30, 6, 1.0))));));
+    add("C07", "conv / xcorr (first operand scaled)", 1, HV(return app(app(flat(FirFilterR::conv(rs(30, 1, s), rs(7, 2, 1.0))), flat(xcorr(rs(20, 3, s), rs(9, 4, 1.0)))), flat(xcorr(cs(12, 5, s), cs(12, 6, 1.0))));));
+    add("C07", "conv / xcorr (second operand scaled)", 1, HV(return app(app(flat(FirFilterR::conv(rs(30, 1, 1.0), rs(7, 2, s))), flat(xcorr(rs(20, 3, 1.0), rs(9, 4, s)))), flat(xcorr(cs(12, 5, 1.0), cs(12, 6, s))));));
+    add("C07", "xcorr (auto)", 2, HV(return flat(xcorr(rs(12, 4, s)));));
+    add("C08,C06", "resample / converters", 1, HV(FIRRateConverter a(2, 3); FIRInterpolator b(3); FIRDecimator d(3); return app(app(flat(resample(rs(30, 1, s), 3, 2)), flat(a.process(rs(24, 2, s)))), app(flat(b.process(rs(24, 3, s))), flat(d.process(rs(24, 4, s)))));));
+    add("C13", "welch", 2, HV(return app(flat(welch(rs(96, 1, s), window::hann(16), 4, 32).pxx), flat(welch(cs(64, 2, s), 16).pxx));));
+    add("C13", "mscohere (one signal scaled)", 0, HV(return flat(mscohere(rs(96, 1, s), rs(96, 2, 1.0), window::hann(16), 4, 32));), 100);
+    add("C14,C06", "hilbert / HilbertFilter / Tuner", 1, HV(HilbertFilter f(31, 0.05); Tuner t(8, 1.25); return app(app(flat(hilbert(rs(24, 1, s))), flat(hilbert(rs(20, 2, s), 32))), app(flat(f.process(rs(80, 3, s))), flat(t.process(cs(40, 4, s)))));));
+    add("C16", "sort / median / medfilt", 1, HV(MedianFilter m(5); auto v = ps(20, 3, s); return app(app(flat(sort(ps(9, 1, s)).first), flat(median(ps(10, 2, s)))), app(flat(medfilt(v, 5)), flat(m.process(ps(20, 4, s)))));));
+    add("C16", "sort index / corr (first sample scaled)", 0, HV(return app(flat(sort(ps(9, 1, s)).second), Out{corr(ps(12, 1, s), ps(12, 2, 1.0), Correlation::Pearson), corr(ps(12, 1, s), ps(12, 2, 1.0), Correlation::Spearman), corr(ps(12, 1, s), ps(12, 2, 1.0), Correlation::Kendall)});), 100);
+    add("C16", "corr (both samples scaled)", 0, HV(return Out{corr(ps(12, 1, s), ps(12, 2, s), Correlation::Pearson), corr(ps(12, 1, s), ps(12, 2, s), Correlation::Spearman), corr(ps(12, 1, s), ps(12, 2, s), Correlation::Kendall)};), 100);
+    add("C17", "reductions", 1, HV(auto x = rs(17, 1, s); auto z = cs(17, 2, s); return app(Out{sum(x), mean(x), stddev(x), rms(x), norm(x), max(x), min(x), peak2peak(x), rms(z), norm(z), stddev(z)}, app(flat(cumsum(x)), app(flat(abs(z)), flat(sum(z)))));));
+    add("C17", "angle / argmax", 0, HV(auto x = rs(17, 1, s); auto z = cs(17, 2, s); return app(flat(angle(z)), Out{(double)argmax(x), (double)argmin(x), (double)argmax(z)});));
+    add("C18", "finddelay / gccphat", 0, HV(auto x = rs(64, 1, s); auto y = delayseq(x, 5); return app(flat((double)finddelay(x, y)), flat(gccphat(y, x, 8000).tau));), 100);
+    add("C19", "snr / sinad / thd", 0, HV(arr_real x(2048); for (int i = 0; i < 2048; ++i) x[i] = s * (std::sin(2 * pi * 200.3 * i / 2048) + 0.1 * std::sin(2 * pi * 400.6 * i / 2048) + 1e-3 * lcg_val(1, (uint64_t)i)); return app(Out{snr(x), sinad(x), thd(x).value}, flat(thd(x, 3).harmfreq));), 100);
+    add("C19", "awgn", 1, HV(rng(5); auto a = awgn(rs(40, 1, s), 10.5); rng(5); auto b = awgn(cs(40, 2, s), 3); return app(flat(a), flat(b));));
+    return H;
+}
+
 int main(int argc, char** argv) {
     std::string prop = "C10";
     for (int i = 1; i + 1 < argc; ++i)
@@ -348,6 +408,46 @@ int main(int argc, char** argv) {
         ctx.transitions += 3 * ctx.checks[chk].evals;
         ctx.state(fnv(chk));
         (void)o;
+    }
+    // ---- homogeneity under power-of-two scaling
+    for (auto& h : hom_catalogue()) {
+        if (("," + h.prop + ",").find("," + prop + ",") == std::string::npos) continue;
+        std::string chk = "scale." + h.name;
+        if (!ctx.take(chk.c_str(), P().kv("fn", h.name).kv("degree", h.degree))) continue;
+        forked(ctx, h.name.c_str(), 120.0, [&](ChildCtx& c) {
+            auto run = [&](double sc) -> Out {
+                try {
+                    return h.f(sc);
+                } catch (const std::exception&) {
+                    return Out{THROWN};
+                }
+            };
+            const Out base = run(1.0);
+            for (int k : {-300, -100, -40, 40, 100, 300}) {
+                if (std::abs(k) > h.kmax) continue;
+                ++c.evals;
+                ++c.nontriv;
+                const double sc = std::ldexp(1.0, k);
+                const Out o = run(sc);
+                if (o.size() != base.size()) {
+                    c.fail(h.name.c_str(), fmt("input scaled by 2^%d: %zu values instead of %zu%s", k, o.size(), base.size(), (o.size() == 1 && o[0] == THROWN) ? " (threw)" : ""),
+                           "same shape as at unit scale", P().kv("k", k));
+                    continue;
+                }
+                for (size_t i = 0; i < o.size(); ++i) {
+                    const double want = std::ldexp(base[i], k * h.degree);
+                    if (std::isnan(base[i]) && std::isnan(o[i])) continue;
+                    // skip values whose exact image is not a normal double (the scaling itself would round)
+                    if (want != 0 && (!std::isfinite(want) || std::fabs(want) < 1e-290 || std::fabs(want) > 1e290)) continue;
+                    if (!biteq(o[i], want) && !(o[i] == 0 && want == 0)) {
+                        c.fail(h.name.c_str(), fmt("input scaled by 2^%d: value %zu = %.17g, at unit scale %.17g, exact image %.17g (degree %d)", k, i, o[i], base[i], want, h.degree),
+                               "f(2^k x) = 2^(k*degree) f(x) bit for bit (scaling by a power of two is exact)", P().kv("k", k));
+                        break;
+                    }
+                }
+            }
+        });
+        ctx.state(fnv(chk));
     }
     return ctx.finish();
 }
